@@ -4,6 +4,15 @@ from fractions import Fraction
 import numpy as np
 
 
+class WarnVal(Fraction):
+    """a coalition value whose evaluation SUCCEEDS but emits a warning of a category the scoring loops do not escalate (DeprecationWarning, FutureWarning,
+    PendingDeprecationWarning, ResourceWarning ...): the value counts, the warning is nobody's business"""
+    def __new__(cls, value, category="DeprecationWarning"):
+        self = super().__new__(cls, value)
+        self.category = category
+        return self
+
+
 def make_table_utility(I, table, null, mean, default=None):
     """table: dict frozenset(row ids) -> Fraction | 'ValueError' | 'RuntimeWarning' | 'UserWarning' | 'Other'.
     X_train must be np.arange(n_rows).reshape(-1,1) so that the utility can read the selected rows."""
@@ -38,14 +47,18 @@ def make_table_utility(I, table, null, mean, default=None):
                 return UtilityResult(score=float("nan"))
             if out == "Other":
                 raise KeyError("other exception")
+            if isinstance(out, WarnVal):
+                warnings.warn("a deprecated code path was taken", getattr(__import__("builtins"), out.category))
             return UtilityResult(score=float(out))
 
-        def null_score(self, *a, **k):
-            return float(null)
+        def null_score(self, X_train, y_train, X_test, y_test, *a, **k):
+            # like the library's own utilities, the null and mean scores are functions of the VALIDATION data of the call: validation label v shifts them by v * shift
+            return float(null) + float(u.shift) * float(np.asarray(y_test).reshape(-1)[0])
 
-        def mean_score(self, *a, **k):
-            return float(mean)
+        def mean_score(self, X_train, y_train, X_test, y_test, *a, **k):
+            return float(mean) + float(u.shift) * float(np.asarray(y_test).reshape(-1)[0])
     u = TableUtility()
+    u.shift = 0
     u.calls = calls
     u.bad = bad
     u.expect_ids = False
@@ -77,6 +90,9 @@ def rand_table(rng, exprs, n_units, p_fail=0.15, dyadic=True, allow_other=False)
             table[rows] = rng.choice(["ValueError", "RuntimeWarning", "UserWarning"])
         elif allow_other and r < p_fail + 0.03:
             table[rows] = "Other"
+        elif r > 0.84 and r <= 0.9:
+            # evaluates fine but warns in a harmless category
+            table[rows] = WarnVal(Fraction(rng.randrange(-64, 65), 8 if dyadic else 7), rng.choice(["DeprecationWarning", "FutureWarning", "PendingDeprecationWarning", "ResourceWarning"]))
         elif r > 0.9:
             # a coalition worth exactly 0 (a model that gets every validation point wrong): 0.0 is a score, not "no score"
             table[rows] = Fraction(0)
@@ -86,7 +102,7 @@ def rand_table(rng, exprs, n_units, p_fail=0.15, dyadic=True, allow_other=False)
 
 
 def table_json(table):
-    return [[sorted(k), (v if isinstance(v, str) else str(v))] for k, v in sorted(table.items(), key=lambda kv: sorted(kv[0]))]
+    return [[sorted(k), (v if isinstance(v, str) else str(Fraction(v)))] for k, v in sorted(table.items(), key=lambda kv: sorted(kv[0]))]
 
 
 def value_of(table, rows, null):
@@ -107,6 +123,8 @@ def genb_table(exprs, n_units, table):
                 out.append([list(a), "warn", v, "0"])
             else:
                 out.append([list(a), "exc", ("KeyError" if v == "Other" else v), "0"])
+        elif isinstance(v, WarnVal):
+            out.append([list(a), "warn", v.category, str(Fraction(v))])
         else:
             out.append([list(a), "val", "", str(Fraction(v))])
     return out
